@@ -334,6 +334,17 @@ class Exec:
                 ch = s.v[0] if isinstance(s.v, bytes) else ord(s.v)
                 return zint(o) == ch
             return z3.BoolVal(False)
+        if isinstance(x, ListV) and isinstance(y, TupV):
+            x, y = y, x
+        if isinstance(x, TupV) and isinstance(y, ListV):
+            # tuple against a guarded list: same length and equal element by element
+            n_ = z3.Sum(*[z3.If(g, 1, 0) for g, _ in y.items]) if y.items else z3.IntVal(0)
+            if len(x.items) > len(y.items):
+                return z3.BoolVal(False)
+            cs = [n_ == len(x.items)]
+            for a_, (g_, b_) in zip(x.items, y.items):
+                cs.append(z3.And(g_, self.equal(a_, b_, st, node)))
+            return z3.And(*cs)
         if isinstance(x, TupV) and isinstance(y, TupV):
             if len(x.items) != len(y.items):
                 return z3.BoolVal(False)
@@ -367,6 +378,11 @@ class Exec:
             return z3.Or(*[self.equal(x, v, st, node) for v in vals]) if vals else z3.BoolVal(False)
         if isinstance(y, DictIntV):
             return y.has[zint(x)]
+        if isinstance(y, ObjV) and y.cls == "__kwdict__" and isinstance(x, PyConst):
+            v_ = y.fields.get(x.v)
+            if v_ is None:
+                return z3.BoolVal(False)
+            return z3.Not(v_.none) if isinstance(v_, Opt) else z3.BoolVal(True)
         f = self.cx.spec.get("__contains__")
         if f is not None:
             r = f(self, x, y, st)
